@@ -10,7 +10,7 @@ def fmtArena (o : Option Arena) : String :=
 
 def fmtTree (w : W) (t : Nat) : String :=
   match w.tree t with
-  | some (a, tr) => s!"{tr.dump} min={tr.minId} max={tr.maxId} n={tr.size} | {fmtArena (w.arena a)}"
+  | some (a, tr) => s!"{tr.dumpP 0} min={tr.minId} max={tr.maxId} n={tr.size} | {fmtArena (w.arena a)}"
   | none => "no-tree"
 
 partial def loop (h : IO.FS.Stream) (w : W) : IO Unit := do
